@@ -146,13 +146,13 @@ func (eng *Engine) writeReplay(prop string, o *Obligation) string {
 	}
 	path := filepath.Join(replaysDir(), prop+"-"+safe+".json")
 	rep := map[string]any{
-		"property":   prop,
-		"obligation": o.Name,
-		"kind":       o.Kind,
-		"function":   o.Fn,
-		"source":     o.Src,
-		"result":     o.Result,
-		"solver":     o.Solver,
+		"property":      prop,
+		"obligation":    o.Name,
+		"kind":          o.Kind,
+		"function":      o.Fn,
+		"source":        o.Src,
+		"result":        o.Result,
+		"solver":        o.Solver,
 		"solver_output": truncate(o.Model, 20000),
 	}
 	if o.Expect == "sat" {
